@@ -121,8 +121,8 @@ def fixture_cases(tier):
     out = []
     for name, dom, prob, plan in FIXTURES:
         limit = {"quick": 12, "thorough": 0}[tier]
-        if name in ("spider", "elevators", "miconic"):      # large states: the exported text dominates the literal
-            limit = {"quick": 3, "thorough": 20}[tier]
+        if name in ("spider", "elevators", "miconic"):      # ~1000 facts per state: set comparison inside Coq is quadratic
+            limit = {"quick": 3, "thorough": 6}[tier]
         for allow in ((False,) if tier == "quick" else (False, True)):
             out.append({"kind": "fixture:" + name, "domain_path": str(REPO / FIXTURE_DIR / dom),
                         "problem_path": str(REPO / FIXTURE_DIR / prob), "plan_path": str(REPO / FIXTURE_DIR / plan),
